@@ -141,7 +141,7 @@ proof fn ct_lemma_val_small_low(s: Seq<Limb>, lo: nat, n: nat, yv: int)
 }
 
 /// Normalisation: facts about the shifted divisor y = rhs << (BITS - dbits) and the shifted dividend.
-proof fn ct_lemma_setup(y: Seq<Limb>, n: nat, dbits: nat, lshift: nat, yc: nat, rv: int, sv: int)
+pub proof fn ct_lemma_setup(y: Seq<Limb>, n: nat, dbits: nat, lshift: nat, yc: nat, rv: int, sv: int)
     requires
         n >= 1, 0 < dbits <= 64 * n,
         yc as int == (dbits + 63) / 64, lshift as int == (64 - dbits % 64) % 64,
@@ -204,7 +204,7 @@ proof fn ct_lemma_setup(y: Seq<Limb>, n: nat, dbits: nat, lshift: nat, yc: nat, 
 }
 
 /// The running high limb never exceeds the top divisor limb (precondition of div3by2).
-proof fn ct_lemma_hi_le_top(xb: Seq<Limb>, y: Seq<Limb>, h: int, n: nat, yc: nat, k: nat, yv: int)
+pub proof fn ct_lemma_hi_le_top(xb: Seq<Limb>, y: Seq<Limb>, h: int, n: nat, yc: nat, k: nat, yv: int)
     requires
         1 <= yc <= n, 1 <= k <= n, k + 1 >= yc, h >= 0,
         val(y, n) == yv * bp((n - yc) as nat),
@@ -231,7 +231,7 @@ proof fn ct_lemma_hi_le_top(xb: Seq<Limb>, y: Seq<Limb>, h: int, n: nat, yc: nat
 }
 
 /// Quotient digit estimate for an active step (xi + 1 >= yc): q in {qt, qt + 1} where qt is the true digit.
-proof fn ct_lemma_digit(xb: Seq<Limb>, y: Seq<Limb>, h: int, n: nat, yc: nat, xi: nat, yv: int, q: int)
+pub proof fn ct_lemma_digit(xb: Seq<Limb>, y: Seq<Limb>, h: int, n: nat, yc: nat, xi: nat, yv: int, q: int)
     requires
         2 <= n, 1 <= yc <= n, 1 <= xi < n, xi + 1 >= yc, xb.len() == n, y.len() == n, 0 <= h,
         val(y, n) == yv * bp((n - yc) as nat), forall|j: int| 0 <= j < n - yc ==> y[j].0 == 0,
@@ -297,7 +297,7 @@ proof fn ct_lemma_digit(xb: Seq<Limb>, y: Seq<Limb>, h: int, n: nat, yc: nat, xi
 }
 
 /// one step of the multiply-and-subtract loop (integer level)
-proof fn ct_lemma_mulsub_step(vx: int, vxb: int, vys: int, q: int, pk: int, xo: int, xn: int, tm: int, yi: int, c0: int, c1: int, b0: int, b1: int)
+pub proof fn ct_lemma_mulsub_step(vx: int, vxb: int, vys: int, q: int, pk: int, xo: int, xn: int, tm: int, yi: int, c0: int, c1: int, b0: int, b1: int)
     requires
         vx == vxb - q * vys + c0 * pk + b0 * pk,
         tm + c1 * B() == yi * q + c0,
@@ -319,7 +319,7 @@ proof fn ct_lemma_mulsub_step(vx: int, vxb: int, vys: int, q: int, pk: int, xo: 
 }
 
 /// one step of the conditional add-back loop (integer level)
-proof fn ct_lemma_addback_step(vx: int, vxs: int, vys: int, mm: int, pk: int, xo: int, xn: int, yi: int, sel: int, c0: int, c1: int)
+pub proof fn ct_lemma_addback_step(vx: int, vxs: int, vys: int, mm: int, pk: int, xo: int, xn: int, yi: int, sel: int, c0: int, c1: int)
     requires
         vx + c0 * pk == vxs + mm * vys,
         xn + c1 * B() == xo + sel + c0,
@@ -340,7 +340,7 @@ proof fn ct_lemma_addback_step(vx: int, vxs: int, vys: int, mm: int, pk: int, xo
 }
 
 /// after x -= q*dd: the final borrow tells whether q over-estimated, and the low m limbs hold the remainder (mod B^m)
-proof fn ct_lemma_after_sub(remv: int, dd: int, q: int, qt: int, l: int, tt: int, pt: int, bbv: int, c: int, b0: int, h: int, vxbm: int)
+pub proof fn ct_lemma_after_sub(remv: int, dd: int, q: int, qt: int, l: int, tt: int, pt: int, bbv: int, c: int, b0: int, h: int, vxbm: int)
     requires
         l == vxbm - q * dd + c * pt + b0 * pt,
         tt - bbv * B() == h - c - b0,
@@ -383,7 +383,7 @@ proof fn ct_lemma_after_sub(remv: int, dd: int, q: int, qt: int, l: int, tt: int
 }
 
 /// after the conditional add-back the low m limbs hold the true partial remainder
-proof fn ct_lemma_after_add(l2: int, c: int, pt: int, lsub: int, dd: int, mm: int, rprime: int)
+pub proof fn ct_lemma_after_add(l2: int, c: int, pt: int, lsub: int, dd: int, mm: int, rprime: int)
     requires
         l2 + c * pt == lsub + mm * dd, mm == 0 || mm == 1,
         lsub == (if mm == 1 { pt + rprime - dd } else { rprime }),
@@ -407,7 +407,7 @@ proof fn ct_lemma_after_add(l2: int, c: int, pt: int, lsub: int, dd: int, mm: in
 }
 
 /// storing the digit qt at position xi re-establishes the outer invariant for k = xi
-proof fn ct_lemma_store(xa: Seq<Limb>, xn: Seq<Limb>, n: nat, xi: nat, yc: nat, qacc: int, qt: int, yv: int, xv: int, remv: int, dd: int)
+pub proof fn ct_lemma_store(xa: Seq<Limb>, xn: Seq<Limb>, n: nat, xi: nat, yc: nat, qacc: int, qt: int, yv: int, xv: int, remv: int, dd: int)
     requires
         1 <= xi < n, 1 <= yc <= xi + 1,
         forall|j: int| 0 <= j < n && j != xi ==> xn[j] == xa[j], xn[xi as int].0 as int == qt,
@@ -441,7 +441,7 @@ proof fn ct_lemma_store(xa: Seq<Limb>, xn: Seq<Limb>, n: nat, xi: nat, yc: nat, 
 }
 
 /// yc == 1: the top limb of the normalised divisor is the whole divisor
-proof fn ct_lemma_single_top(y: Seq<Limb>, n: nat, yv: int)
+pub proof fn ct_lemma_single_top(y: Seq<Limb>, n: nat, yv: int)
     requires n >= 1, val(y, n) == yv * bp((n - 1) as nat),
     ensures y[n - 1].0 as int == yv,
 {
@@ -456,7 +456,7 @@ proof fn ct_lemma_single_top(y: Seq<Limb>, n: nat, yv: int)
 }
 
 /// final assembly, single-limb divisor (yc == 1)
-proof fn ct_lemma_final_single(xq: Seq<Limb>, xf: Seq<Limb>, yf: Seq<Limb>, n: nat, qacc: int, q2: int, r2: int, hq: int, yv: int, xv: int)
+pub proof fn ct_lemma_final_single(xq: Seq<Limb>, xf: Seq<Limb>, yf: Seq<Limb>, n: nat, qacc: int, q2: int, r2: int, hq: int, yv: int, xv: int)
     requires
         n >= 2,
         forall|j: int| 1 <= j < n ==> xf[j] == xq[j], xf[0].0 as int == q2,
@@ -480,7 +480,7 @@ proof fn ct_lemma_final_single(xq: Seq<Limb>, xf: Seq<Limb>, yf: Seq<Limb>, n: n
 }
 
 /// final assembly, multi-limb divisor (yc >= 2): remainder limbs x[0..yc-1) ++ [x_hi], quotient limbs x[yc-1..n)
-proof fn ct_lemma_final_multi(xq: Seq<Limb>, yf: Seq<Limb>, n: nat, yc: nat, qacc: int, hq: Limb)
+pub proof fn ct_lemma_final_multi(xq: Seq<Limb>, yf: Seq<Limb>, n: nat, yc: nat, qacc: int, hq: Limb)
     requires
         2 <= yc <= n,
         yf[0] == xq[0],
@@ -505,7 +505,7 @@ proof fn ct_lemma_final_multi(xq: Seq<Limb>, yf: Seq<Limb>, n: nat, yc: nat, qac
 }
 
 /// undo the normalisation shift
-proof fn ct_lemma_unscale(sv: int, rv: int, s2: int, qfin: int, rfin: int)
+pub proof fn ct_lemma_unscale(sv: int, rv: int, s2: int, qfin: int, rfin: int)
     requires sv * s2 == qfin * (rv * s2) + rfin, 0 <= rfin < rv * s2, s2 > 0,
     ensures rfin / s2 == sv - qfin * rv, qfin * rv + (sv - qfin * rv) == sv, 0 <= sv - qfin * rv < rv,
 {
@@ -517,7 +517,7 @@ proof fn ct_lemma_unscale(sv: int, rv: int, s2: int, qfin: int, rfin: int)
 }
 
 /// quotient / remainder are determined by the division identity
-proof fn ct_lemma_divrem_unique(a: int, d: int, q: int, r: int)
+pub proof fn ct_lemma_divrem_unique(a: int, d: int, q: int, r: int)
     requires q * d + r == a, 0 <= r < d,
     ensures q == a / d, r == a % d,
 {
